@@ -4,11 +4,11 @@ import (
 	"bytes"
 	"fmt"
 
+	"github.com/go-i2p/common/data"
 	"github.com/go-i2p/common/key_certificate"
 	"github.com/go-i2p/common/keys_and_cert"
 	"github.com/go-i2p/common/lease"
 	"github.com/go-i2p/common/lease_set2"
-	"github.com/go-i2p/common/data"
 	"github.com/go-i2p/common/offline_signature"
 	"github.com/go-i2p/common/signature"
 )
@@ -131,11 +131,12 @@ func runC10(c *Ctx) {
 			if !specKnownCr {
 				n = 7
 			}
-			good := ls2ValidateKey(code, n)
-			bad := ls2ValidateKey(code, n+1)
+			good := ls2ValidateKeyAt(code, n, 0, 1)
+			bad := ls2ValidateKeyAt(code, n+1, 0, 1)
 			want := specKnownCr
-			c.Check("leaseset_key_validation_agrees", good && (bad == !want), "LeaseSet2.Validate key size", [][]byte{cb}, "",
-				fmt.Sprintf("crypto type %d: spec length accepted=%v, other length accepted=%v, known in spec=%v", code, good, bad, want))
+			indep := ls2KeyPositionIndependent(code, n) && ls2KeyPositionIndependent(code, n+1)
+			c.Check("leaseset_key_validation_agrees", good && (bad == !want) && indep, "LeaseSet2.Validate key size", [][]byte{cb}, "",
+				fmt.Sprintf("crypto type %d: spec length accepted=%v, other length accepted=%v, known in spec=%v, same verdict at every key position=%v", code, good, bad, want, indep))
 		}
 	}
 	// the 384-byte block for every supported pair, arbitrary key / padding / certificate bytes
@@ -179,17 +180,44 @@ func runC10(c *Ctx) {
 
 var ls2FixedDest []byte
 
+// ls2ValidateKey: does LeaseSet2.Validate accept an encryption key of type t with n bytes —
+// asked with the key alone, first of two, last of two and in the middle of three (the other
+// keys being valid X25519 keys): the answer must not depend on the position.
 func ls2ValidateKey(t, n int) bool {
+	first := ls2ValidateKeyAt(t, n, 0, 1)
+	for _, lay := range [][2]int{{0, 2}, {1, 2}, {1, 3}} {
+		if ls2ValidateKeyAt(t, n, lay[0], lay[1]) != first {
+			return false
+		}
+	}
+	return first
+}
+
+// ls2KeyPositionIndependent reports whether all layouts agree (used by the oracle's detail)
+func ls2KeyPositionIndependent(t, n int) bool {
+	first := ls2ValidateKeyAt(t, n, 0, 1)
+	for _, lay := range [][2]int{{0, 2}, {1, 2}, {1, 3}} {
+		if ls2ValidateKeyAt(t, n, lay[0], lay[1]) != first {
+			return false
+		}
+	}
+	return true
+}
+
+func ls2ValidateKeyAt(t, n, pos, total int) bool {
 	if ls2FixedDest == nil {
 		ls2FixedDest = genIdentTypes(&Rng{7}, 7, 4, false).Encode()
 	}
-	rr := &Rng{uint64(t)*131 + uint64(n)}
-	w := cat(ls2FixedDest, u32(1), u16(1), u16(0), []byte{0, 0}, []byte{1}, u16(t), u16(n), rr.Bytes(n), []byte{1}, genLease2(rr), rr.Bytes(64), make([]byte, 0))
-	for len(w) < lease_set2.LEASESET2_MIN_SIZE {
-		// keep the structure intact: widen with a second lease instead of trailing bytes
-		w = cat(ls2FixedDest, u32(1), u16(1), u16(0), []byte{0, 0}, []byte{1}, u16(t), u16(n), rr.Bytes(n), []byte{2}, genLease2(rr), genLease2(rr), rr.Bytes(64))
-		break
+	rr := &Rng{uint64(t)*131 + uint64(n) + uint64(pos*7+total)}
+	keys := []byte{byte(total)}
+	for i := 0; i < total; i++ {
+		if i == pos {
+			keys = cat(keys, u16(t), u16(n), rr.Bytes(n))
+		} else {
+			keys = cat(keys, u16(4), u16(32), rr.Bytes(32))
+		}
 	}
+	w := cat(ls2FixedDest, u32(1), u16(1), u16(0), []byte{0, 0}, keys, []byte{2}, genLease2(rr), genLease2(rr), rr.Bytes(64))
 	ls, _, err := lease_set2.ReadLeaseSet2(cat(w, make([]byte, 64)))
 	if err != nil {
 		return false
